@@ -6,6 +6,7 @@ stated on source paths (`Sel.src`, project relative).
 -/
 import PoetryVerif.Proofs.Select
 import PoetryVerif.Proofs.SelectUnpack
+import PoetryVerif.Proofs.SelectBoundary
 
 set_option linter.unusedSimpArgs false
 set_option linter.unusedVariables false
@@ -544,5 +545,81 @@ example : TreeWF exTree ∧ select .wheel exTree ex2Cfg [] = .ok ex2W ∧ select
   rw [this] at hL
   cases hL
   decide +kernel
+
+/-- **The positive statement, reduced to its decidable boundary.**  Without a VCS-ignored list (`ig = []`: no `.git`,
+or nothing ignored) three of the six named hypotheses of `wheel_from_sdist_eq_of_hypotheses` are discharged by the
+model of `find_files_to_add` / `find_excluded_files`, given two decidable conditions on the package list `pkgs` the
+wheel uses:
+* `hVcs` is vacuous;
+* `hArc` follows from `arcSafe pkgs cfg` — either no package is relocated with `from`/`to`, so every offer is
+  `source ↦ same path` (`arc_functional_of_plain`), or the wheel is fed by a single package rule and no wheel-format
+  include (`arc_functional_of_single`); the complement (a relocated package together with a second rule) is where one
+  file can be offered under two archive names;
+* `hPk` follows from `pkgInfoUnreached pkgs cfg` — no wheel rule (package or wheel-format include) matches a root-level
+  `PKG-INFO` or takes the whole project root (`offers_not_pkgInfo`); its complement is exactly the class of
+  `wheel_from_sdist_counterexample_pkginfo`.
+What remains: the premise `hsub`; `hRebuild` (the rebuild does not raise — complement: the catalogued class "package
+emptied by exclusion", decidable by evaluating the model on the unpacked tree); `hPkgs` for the *default* package
+(discharged below when `packages` names a wheel package). -/
+theorem wheel_from_sdist_eq_decidable {T : Tree} (wf : TreeWF T) {cfg : Cfg} {W S W' : List Sel} {txt : String}
+    {pkgs : List PkgSpec}
+    (hW : select .wheel T cfg [] = .ok W) (hS : select .sdist T cfg [] = .ok S)
+    (hsub : ∀ w ∈ W, ∃ s ∈ S, s.src = w.src)
+    (hRebuild : select .wheel (unpack T S txt) cfg [] = .ok W')
+    (hPkgs : modulePackages .wheel (unpack T S txt) cfg = modulePackages .wheel T cfg)
+    (hpk : modulePackages .wheel T cfg = .ok pkgs)
+    (hPlain : arcSafe pkgs cfg = true)
+    (hInfo : pkgInfoUnreached pkgs cfg = true) :
+    (∀ t, t ∈ W' ↔ t ∈ W) ∧ ∀ x, x ∈ archive T W ↔ x ∈ archive (unpack T S txt) W' := by
+  refine wheel_from_sdist_eq_of_hypotheses wf hW hS hsub hRebuild hPkgs (fun _ _ _ _ _ h => by cases h) ?_ ?_
+  · obtain ⟨B', hB', _, hWB', _⟩ := select_mem hRebuild
+    have e2 := hWB' rfl; subst e2
+    obtain ⟨LU, hLU, rfl⟩ := findFilesToAdd_offers hB'
+    intro w' hw'
+    have hmem : w' ∈ LU := by
+      rcases mem_foldl_addSel hw' with h | h
+      · cases h
+      · exact h
+    exact offers_not_pkgInfo hLU (fun ps h => by rw [hPkgs, hpk] at h; cases h; exact hInfo) w' hmem
+  · intro L hL
+    unfold arcSafe at hPlain
+    rcases Bool.or_eq_true_iff.mp hPlain with hp | hs
+    · exact arc_functional_of_plain hL (fun ps h => by rw [hpk] at h; cases h; exact hp)
+    · unfold singleRule at hs
+      simp only [Bool.and_eq_true, decide_eq_true_eq, List.isEmpty_iff] at hs
+      refine arc_functional_of_single wf hL (fun ps h => ?_)
+      rw [hpk] at h; cases h
+      refine ⟨hs.1, fun i hi hf => ?_⟩
+      have : i ∈ cfg.includes.filter fun i => i.formats.contains Fmt.wheel.name := by
+        rw [List.mem_filter]; exact ⟨hi, by simpa using hf⟩
+      rw [hs.2] at this; cases this
+
+/-- with `packages` naming a package for the wheel, `hPkgs` is discharged too: only the premise and "the rebuild does
+not raise" remain besides the two decidable conditions -/
+theorem wheel_from_sdist_eq_no_vcs {T : Tree} (wf : TreeWF T) {cfg : Cfg} {W S W' : List Sel} {txt : String}
+    (hW : select .wheel T cfg [] = .ok W) (hS : select .sdist T cfg [] = .ok S)
+    (hsub : ∀ w ∈ W, ∃ s ∈ S, s.src = w.src)
+    (hRebuild : select .wheel (unpack T S txt) cfg [] = .ok W')
+    (hExplicit : (cfg.packages.filter (fun p => p.formats.contains Fmt.wheel.name)).isEmpty = false)
+    (hPlain : arcSafe (cfg.packages.filter (fun p => p.formats.contains Fmt.wheel.name)) cfg = true)
+    (hInfo : pkgInfoUnreached (cfg.packages.filter (fun p => p.formats.contains Fmt.wheel.name)) cfg = true) :
+    (∀ t, t ∈ W' ↔ t ∈ W) ∧ ∀ x, x ∈ archive T W ↔ x ∈ archive (unpack T S txt) W' := by
+  have hpk : modulePackages .wheel T cfg = .ok (cfg.packages.filter (fun p => p.formats.contains Fmt.wheel.name)) := by
+    unfold modulePackages; simp only [hExplicit]; rfl
+  exact wheel_from_sdist_eq_decidable wf hW hS hsub hRebuild (modulePackages_explicit hExplicit) hpk hPlain hInfo
+
+/-- the hypotheses are met by the project of `ex2Cfg` (default package `p`) … -/
+example : modulePackages .wheel exTree ex2Cfg = .ok [⟨"p", none, none, Gen.defaultPackageFormats⟩] ∧
+    arcSafe [⟨"p", none, none, Gen.defaultPackageFormats⟩] ex2Cfg = true ∧
+    pkgInfoUnreached [⟨"p", none, none, Gen.defaultPackageFormats⟩] ex2Cfg = true := by
+  refine ⟨by decide +kernel, by decide +kernel, by decide +kernel⟩
+
+/-- … and the boundary is exact on the catalogued class: the configuration of `wheel_from_sdist_counterexample_pkginfo`
+(`include = ["*"]` for the wheel) fails `pkgInfoUnreached`; a relocated package next to a wheel-format include fails
+`arcSafe`, alone it passes -/
+example : pkgInfoUnreached [⟨"p", none, none, Gen.defaultPackageFormats⟩] cx2Cfg = false ∧
+    arcSafe [⟨"p", some "src", none, ["sdist", "wheel"]⟩] cx2Cfg = false ∧
+    arcSafe [⟨"p", some "src", none, ["sdist", "wheel"]⟩] ⟨"p", "proj", "p", "1.0", [], [], [], [], [], false⟩ = true := by
+  refine ⟨by decide +kernel, by decide +kernel, by decide +kernel⟩
 
 end Poetry.C09
